@@ -23,7 +23,8 @@ TranslateError naming file, line and construct); M = 2-D array, v = 1-D array, r
                  numpy.abs / numpy.absolute (M)           -> cm_abs (moduli)
                  numpy.argmax(R)                          -> np_argmax2 (first maximum of the flattened array)
                  M.shape ; numpy.unravel_index(k, M.shape)-> (k / ncols, k mod ncols)
-                 idx[0], idx[1] ; M[i, :] = 0 ; M[:, j] = 0 ; L[i] = items[j]  (IndexError = None) ; range(n)
+                 idx[0], idx[1] or `row, col = numpy.unravel_index(..)` ; M[i, :] = 0 ; M[:, j] = 0 ;
+                 L[i] = items[j]  (IndexError = None) ; range(n)
                  `if filter:` / `threshold and ...` are decided statically: the translation is specialised to the defaults
                  filter=None, threshold=None (the model does not cover them either)
   evec_disp2eig  len(mass) ; numpy.repeat(mass, K) ; numpy.copy(a) ; a.shape[1] == e ; K * n ; n * K
@@ -321,6 +322,11 @@ class EvecTr(FunTr):
         if it.ty != "cml":
             self.bail(c, "comprehension over a value of type %s" % it.ty)
         return "(map (@List.length _) %s)" % it.term
+
+    def unpack(self, v, n, node, ident):
+        if v.ty == "idx2" and n == 2:          # numpy.unravel_index of a 2-D shape gives a 2-tuple (row, column)
+            return [Val("(fst %s)" % ident, "nat"), Val("(snd %s)" % ident, "nat")]
+        self.bail(node, "unpacking of a value of type %s into %d names" % (v.ty, n))
 
     def iterable(self, v, e):
         if v.ty == "listnat":
